@@ -676,7 +676,14 @@ class FatTable(abc.MutableSequence):
         """
         with self._lock.read:
             cluster = start
-            while self.min_valid <= cluster <= self.max_valid:
+            # On a volume with (nearly) the maximum number of clusters for its
+            # FAT type the highest cluster numbers overlap the values that are
+            # otherwise reserved (0xFF0..0xFF6 on FAT-12): up to the last data
+            # cluster they are still links
+            last = self.max_valid
+            if self.limit is not None:
+                last = max(last, self.limit - 1)
+            while self.min_valid <= cluster <= last:
                 # Read the link before yielding: callers (unlink, rmdir,
                 # rename) free each cluster as it is yielded
                 next_cluster = self[cluster]
